@@ -410,6 +410,14 @@ def sendRecords (N : Noise) : Nat → List Rec → Option (Bytes × Nat)
     let (bs, n2) ← sendRecords N n1 rs
     pure (b ++ bs, n2)
 
+/-- the records `Connector.select_and_stop_remaining(c)` causes to be written on the connection it
+    selects, in order: first the Leader's `c.send_record(KCM())` (the Follower's KCM went out when
+    the handshake arrived), then what `manager.connector_connection_made(c)` →
+    `Outbound.use_connection(c)` → `resumeProducing` re-sends at once: every un-acked record.
+    The order of the two calls is pinned by `Props.C12.selection_skeleton`. -/
+def selectionWrites (leader : Bool) (backlog : List Rec) : List Rec :=
+  (if leader then [.kcm] else []) ++ backlog
+
 /-- every byte an honest peer (and, before it, the relay) sends on one connection: relay reply,
     prologue, Noise handshake frame `hs`, KCM, then the records -/
 def honestStream (cfg : L2Cfg) (relay : Bool) (hs : Bytes) (recs : List Rec) : Option Bytes := do
